@@ -333,6 +333,39 @@ def run_case(ctx, seed, idx, tier):
                 return {'c': c, 'nt': True, 'key': None, 'multi_keys': keys,
                         'v': {'kind': 'syntax_error_without_file_and_position', 'detail': {'stderr': err[-400:]},
                               'witness': dict(w0b, flags=fl, output=mo)}}
+        # a source that is not text at all: bytes that are not valid UTF-8 (a Latin-1 file, a truncated sequence).
+        # The library raises for such a file, so it "does not compile": the command must exit non-zero, through a
+        # file argument and through standard input
+        if rng.random() < 0.5:
+            raw0 = texts[0].encode('utf8')
+            posc = rng.randrange(len(texts[0]) + 1)
+            cut = len(texts[0][:posc].encode('utf8'))
+            data = raw0[:cut] + rng.choice([b'\xff', b'\xa0', b'\xe9', b'\xc3', b'\xe2\x82', b'\xfc\xdf']) + raw0[cut:]
+            try:
+                data.decode('utf8')
+                data = None
+            except UnicodeDecodeError:
+                pass
+            if data is not None:
+                bpath = os.path.join(tmp, 'latin1.prolog')
+                with open(bpath, 'wb') as f:
+                    f.write(data)
+                # (judged without asking the library: bytes that are not UTF-8 are no sentence of the grammar, C10)
+                if True:
+                    for mi in ('files', 'stdin'):
+                        args = [bpath] if mi == 'files' else ['-']
+                        env = dict(os.environ, PYTHONPATH=os.path.join(REPO, 'src'), LANG='C.UTF-8', PYTHONHASHSEED='0')
+                        try:
+                            p = subprocess.run([sys.executable, '-m', 'yldprolog.compiler'] + args, env=env, input=(data if mi == 'stdin' else None),
+                                               capture_output=True, timeout=120, cwd=tmp)
+                        except subprocess.TimeoutExpired:
+                            continue
+                        c['cli_runs'] = c.get('cli_runs', 0) + 1
+                        c['invalid_utf8_source_runs'] = c.get('invalid_utf8_source_runs', 0) + 1
+                        if p.returncode == 0:
+                            return {'c': c, 'nt': True, 'key': None, 'multi_keys': keys,
+                                    'v': {'kind': 'exit_zero_for_source_that_is_not_valid_utf8', 'detail': {'input': mi, 'stdout': p.stdout.decode('utf8', 'replace')[:200]},
+                                          'witness': dict(w0, bytes_inserted_at=cut, input=mi)}}
     finally:
         shutil.rmtree(tmp, ignore_errors=True)
     return {'c': c, 'nt': False, 'key': None, 'multi_keys': keys,
